@@ -36,15 +36,15 @@ theorem replay_no_effect (H : Bytes → Bytes) (o : Oracles α ι) (env : Env) (
       · simp [fail] at h
       · split at h
         · simp [fail] at h
-        · simp only [makeDepositProposal, hv, hgate, if_true, hdone] at h
+        · simp only [makeDepositProposal, hv, doneActive, hgate, Bool.true_or, if_true, hdone] at h
           simp [fail] at h
   · rw [hreg] at hl; cases hl; rw [hv] at hv'; cases hv'
   · have := hacc.src_registered; rw [hreg] at this; cases this
     have := hacc.verified; rw [hv] at this; cases this
-    exact absurd hdone (hacc.fresh hgate)
+    exact absurd hdone (hacc.fresh (by simp [doneActive, hgate]))
   · have := hacc.src_registered; rw [hreg] at this; cases this
     have := hacc.verified; rw [hv] at this; cases this
-    exact absurd hdone (hacc.fresh hgate)
+    exact absurd hdone (hacc.fresh (by simp [doneActive, hgate]))
 
 /-- An accepted import was fresh and is marked afterwards: it executed a message that was not marked done, and the
 message is marked done in the resulting state. -/
@@ -52,18 +52,20 @@ theorem accepted_fresh_and_marked (H : Bytes → Bytes) (o : Oracles α ι) (hco
     (env : Env) (s : State α) (src : Nat) (inp : ι) (m : Nat × Bytes) (hgate : env.doneGate = true)
     (hacc : acceptedId H o s (.importTx env src inp) = some m) :
     m ∉ s.done ∧ m ∈ (importExTransfer H o env s src inp).state.done := by
-  rcases import_done H o hconf env s src inp with ⟨hnone, _⟩ | ⟨p, hsome, hfresh, hd⟩
+  rcases import_done H o hconf env s src inp with ⟨hnone, _⟩ | ⟨p, g, hsome, hg, hfresh, hd⟩
   · rw [hnone] at hacc; cases hacc
   · rw [hsome] at hacc; cases hacc
-    refine ⟨hfresh hgate, ?_⟩
-    rw [hd]; simp [hgate]
+    have := hg hgate
+    subst this
+    refine ⟨hfresh rfl, ?_⟩
+    rw [hd]; simp
 
 /-- A submission that is not accepted (rejected, pending, panicking) leaves the done marks as they were. -/
 theorem not_accepted_not_marked (H : Bytes → Bytes) (o : Oracles α ι) (hconf : DelegatesConfined o)
     (env : Env) (s : State α) (src : Nat) (inp : ι)
     (hacc : acceptedId H o s (.importTx env src inp) = none) :
     (importExTransfer H o env s src inp).state.done = s.done := by
-  rcases import_done H o hconf env s src inp with ⟨_, hd⟩ | ⟨p, hsome, _, _⟩
+  rcases import_done H o hconf env s src inp with ⟨_, hd⟩ | ⟨p, g, hsome, _, _, _⟩
   · exact hd
   · rw [hsome] at hacc; cases hacc
 
